@@ -12,6 +12,14 @@ class Abort(Exception):
     pass
 
 
+class NeedExtra(Abort):
+    """a call to a function of /repo that the unit does not list but whose body is in the dump (a helper extracted by a refactoring):
+    the unit is lowered again with that function included (no contract: it is inlined into its callers)"""
+    def __init__(self, decl, msg):
+        Abort.__init__(self, msg)
+        self.decl = decl
+
+
 BUILTIN = {
     'bool': 'bool', '_Bool': 'bool', 'char': 'char', 'signed char': 'signed char', 'unsigned char': 'unsigned char',
     'short': 'short', 'unsigned short': 'unsigned short', 'int': 'int', 'unsigned int': 'unsigned int',
@@ -568,6 +576,17 @@ class Lower:
         raise Abort('CXXDefaultInitExpr in %s' % self.cur_fn)
 
     # ------------------------------------------------------------------ calls
+    def maybe_need_extra(self, tgt, msg):
+        if tgt is None or not getattr(self.u, 'AUTO_INCLUDE', True):
+            return
+        q = self.ast.qname(tgt)
+        if not q.startswith('Pistache'):
+            return
+        c = self.ast.canon(tgt['id'])
+        for n in self.ast.functions():
+            if has_body(n) and (self.ast.canon(n['id']) == c or (self.ast.qname(n) == q and self.qt(n) == self.qt(tgt))):
+                raise NeedExtra(n, msg)
+
     def callee_name(self, did, ref=None):
         c = self.ast.canon(did)
         if c in self.fn_by_canon:
@@ -583,6 +602,7 @@ class Lower:
             sk = q + '|' + self.qt(d)
             if sk in self.stubs:
                 return self.stubs[sk]
+            self.maybe_need_extra(d, 'call to %s' % q)
             raise Abort('call to %s [%s]: neither lowered nor stubbed (in %s)' % (q, self.qt(d), self.cur_fn))
         nm = (ref or {}).get('name')
         sk = '%s|%s' % (nm, self.qt(ref or {}))
@@ -804,6 +824,8 @@ class Lower:
         tgt = self.ast.byid.get(r['id'])
         try:
             name = self.callee_name(r['id'], r)
+        except NeedExtra:
+            raise
         except Abort:
             label = self.ast.qname(tgt) if tgt is not None else r.get('name', '?')
             x = self.default_call(label, n, ins[1:], sig=self.qt(tgt or r))
@@ -1008,6 +1030,7 @@ class Lower:
                 x = self.default_call(label, n, ins[1:], objnode=obj, sig=self.qt(tgt) if tgt is not None else '', objx=eo)
                 if x is not None:
                     return x
+                self.maybe_need_extra(tgt, 'member call %s' % key)
                 raise Abort('member call %s [%s] (or key %r): neither lowered nor stubbed (in %s, line %s)' % (key, self.qt(me), rkey, self.cur_fn, Ast.where(n)[1]))
         ptypes = self.param_types_from_sig(self.qt(tgt) if tgt else self.qt(me))
         isstub = isinstance(name, dict) or name not in self.fn_info
@@ -2246,6 +2269,17 @@ def select_functions(ast, unit):
 
 
 def lower_unit(ast, unit, strip_loops=None):
+    extra = []
+    while True:
+        try:
+            return _lower_unit_once(ast, unit, strip_loops, extra)
+        except NeedExtra as e:
+            if any(x['id'] == e.decl['id'] for x in extra) or len(extra) >= 12:
+                raise Abort('%s: neither lowered nor stubbed (the helper could not be included automatically)' % e)
+            extra.append(e.decl)
+
+
+def _lower_unit_once(ast, unit, strip_loops, extra):
     L = Lower(ast, unit)
     # records
     for q in unit.RECORDS:
@@ -2262,9 +2296,12 @@ def lower_unit(ast, unit, strip_loops=None):
         L.records[q] = found
         L.rec_cname[q] = 'struct ' + L.mangle(unit.RECORD_NAMES.get(q, q) if hasattr(unit, 'RECORD_NAMES') else q)
     sel = select_functions(ast, unit)
+    for i, d in enumerate(extra):
+        # helpers of /repo the unit does not list, called by listed functions (lower_unit above): included without a contract, i.e. inlined
+        sel.append((d, {'q': ast.qname(d), 'c': 'vs_auto%d_%s' % (i, L.mangle(ast.qname(d))), 'auto': True}))
     if strip_loops:
         # bounded search (tools/pipeline.py): the function's loop contracts are left out, its loops are unwound instead
-        sel = [(d, dict((k, v) for k, v in w.items() if k != 'loops') if L.fn_cname(d, w) in strip_loops else w) for d, w in sel]
+        sel = [(d, dict((k, v) for k, v in w.items() if k != 'loops') if (strip_loops == '*' or L.fn_cname(d, w) in strip_loops) else w) for d, w in sel]
     for d, w in sel:
         cname = L.fn_cname(d, w)
         if cname in L.fn_info:
@@ -2289,6 +2326,8 @@ def lower_unit(ast, unit, strip_loops=None):
             if has_body(d):
                 try:
                     funs.append(L.function(d, cname, w))
+                except NeedExtra:
+                    raise
                 except Abort as e:
                     # a function the lowering has no rule for (after an edit of /repo) is kept as a prototype with its contract; the proofs
                     # that need its BODY end in a tool error (tools/pipeline.py), the other proofs of the unit still run
@@ -2322,6 +2361,8 @@ def lower_unit(ast, unit, strip_loops=None):
         L.may_throw = mt
     else:
         raise Abort('may_throw fixpoint did not converge')
+    for d in extra:
+        L.assumptions.add('helper %s is not listed in the unit: included automatically, without a contract (inlined into its callers)' % ast.qname(d))
     return L, funs
 
 
